@@ -273,7 +273,9 @@ class C11(Check):
             num_records=int(rng.integers(0, 10**9)),
             sum_weights=float(rng.choice([rng.uniform(0, 1e6), 10.0 ** rng.uniform(-300, 300), 0.1 + 0.2, 1 / 3, 0.0, -0.0,
                                           -rng.uniform(0, 10)])),
-            center=AngularCoordinates([rng.uniform(0, 2 * np.pi), np.arcsin(rng.uniform(-1, 1))]),
+            # right ascension in any convention: [0, 2pi), (-pi, pi], or unwrapped beyond one turn
+            center=AngularCoordinates([float(rng.choice([rng.uniform(0, 2 * np.pi), rng.uniform(-np.pi, 0), rng.uniform(2 * np.pi, 4 * np.pi),
+                                                         0.0, 2 * np.pi, -1e-9])), np.arcsin(rng.uniform(-1, 1))]),
             radius=AngularDistances(float(rng.choice([0.0, 5e-324, rng.uniform(0, np.pi), 10.0 ** rng.uniform(-17, 0)]))),
         )
         meta = Metadata(**vals)
@@ -331,6 +333,17 @@ class C11(Check):
                 kw["patch_centers"] = AngularCoordinates(cen)
             else:
                 kw["patch_name"] = "patch"
+        if "patch_centers" not in kw and rng.random() < 0.4:
+            # centres given explicitly in the (-pi, pi] convention; membership still from the index column is not
+            # possible then, so use the nearest-centre partition of these centres
+            from yaw import AngularCoordinates
+            from vlib import cats as vcats
+            from vlib import gen as vgen
+
+            cen = np.array([[np.deg2rad(cols["ra"][cols["patch"] == k][0]), np.deg2rad(cols["dec"][cols["patch"] == k][0])] for k in range(npatch)])
+            cen[:, 0] = np.where(cen[:, 0] > np.pi, cen[:, 0] - 2 * np.pi, cen[:, 0])
+            kw.pop("patch_name")
+            kw["patch_centers"] = AngularCoordinates(cen)
         cat = Catalog.from_dataframe(tmp / "cat", pd.DataFrame(cols), max_workers=1, **kw)
         back = Catalog(tmp / "cat", max_workers=1)
         if list(back.keys()) != list(cat.keys()):
@@ -340,8 +353,9 @@ class C11(Check):
                 a, b = cat[pid], back[pid]
                 if a.load_data().tobytes() != b.load_data().tobytes() or a.load_data().dtype != b.load_data().dtype:
                     bad("catalog-cache:data-differ", dict(patch=pid))
-                if a.meta.to_dict() != b.meta.to_dict():
-                    bad("catalog-cache:metadata-differ", dict(patch=pid, got=b.meta.to_dict(), want=a.meta.to_dict()))
+                if a.meta.to_dict() != b.meta.to_dict() or not (same(a.meta.center.data, b.meta.center.data) and same(a.meta.radius.data, b.meta.radius.data)):
+                    bad("catalog-cache:metadata-differ", dict(patch=pid, got=b.meta.to_dict(), want=a.meta.to_dict(),
+                                                              got_center=b.meta.center.data.tolist(), want_center=a.meta.center.data.tolist()))
                 if (a.has_weights, a.has_redshifts) != (b.has_weights, b.has_redshifts):
                     bad("catalog-cache:attributes-differ", dict(patch=pid))
         out.append(result(HELD, cls="catalog", counters=dict(catalog_roundtrips=1),
